@@ -1,0 +1,14 @@
+//go:build verif
+
+// Contracts checked by /verif (gocv). Comment-only; compiled only with -tags verif.
+
+package remote
+
+// Re-reading a remote result must be the identity: a point is used only at its own step, i.e. the
+// selector over the remote series runs with lookback 0, offset 0, one shard, on the query's grid (C10).
+//@ func NewExecution
+//@   requires opts != nil
+//@   ensures result != nil && fresh(result)
+//@   at scan.NewVectorSelector assert[C10] identity-reread: $offset == 0 && $shard == 0 && $numShards == 1 &&
+//@       $queryOpts.LookbackDelta == 0 && $queryOpts.Start == opts.Start && $queryOpts.End == opts.End &&
+//@       $queryOpts.Step == opts.Step && $queryOpts.StepsBatch == opts.StepsBatch && $pool == pool
